@@ -137,12 +137,12 @@ Proof.
 Qed.
 
 Lemma asc_guard (l : vec) :
-  np_bcast_ok (firstn (length l - 1) l) (tl l) = true /\ np_all (np_le_vv (firstn (length l - 1) l) (tl l)) = asc l.
+  np_bcast_ok (firstn (length l - 1) l) (tl l) = true /\ np_all (np_lt_vv (firstn (length l - 1) l) (tl l)) = asc l.
 Proof.
   assert (Hlen : zlen (firstn (length l - 1) l) = zlen (tl l)).
   { unfold zlen. rewrite firstn_length. destruct l; cbn [length tl]; lia. }
   split; [unfold np_bcast_ok; rewrite Hlen, Z.eqb_refl; reflexivity|].
-  unfold np_le_vv. rewrite Hlen, Z.eqb_refl. clear Hlen.
+  unfold np_lt_vv. rewrite Hlen, Z.eqb_refl. clear Hlen.
   induction l as [|x l IH]; [reflexivity|]. destruct l as [|y t]; [reflexivity|].
   cbn [length tl asc]. replace (S (S (length t)) - 1)%nat with (S (length t)) by lia. cbn [firstn zmap2b].
   cbn [length tl] in IH. replace (S (length t) - 1)%nat with (length t) in IH by lia.
@@ -164,11 +164,29 @@ Proof.
   rewrite Hb. destruct (H_update_step data k st) as [st'|]; cbn [bind fst snd]; [apply IH|reflexivity].
 Qed.
 
+Lemma np_for_needed (self : ktz) (body : Z -> Z -> res (bool * Z)) :
+  (forall k n, body k n = bind (H_need_step self k n) (fun n' => Ok (false, n'))) ->
+  forall modes n, np_for modes body n = H_needed self modes n.
+Proof.
+  intros Hb. induction modes as [|k ms IH]; intros n; cbn [np_for H_needed]; [reflexivity|].
+  rewrite Hb. destruct (H_need_step self k n) as [n'|]; cbn [bind fst snd]; [apply IH|reflexivity].
+Qed.
+
 Theorem update_bridge (self : ktz) (modes data : vec) : ktensor_update self modes data = H_update self modes data.
 Proof.
   unfold ktensor_update, H_update. cbv zeta. rewrite py_slice_init.
   destruct (asc_guard modes) as [G1 G2]. rewrite G1, G2.
   destruct (asc modes); [|reflexivity].
+  rewrite (np_for_needed self).
+  2:{ intros k n. unfold H_need_step, kt_ncomponents, kt_ndims, kt_shape.
+      destruct (k =? -1); [reflexivity|].
+      destruct ((0 <=? k) && (k <? zlen (kt_factors self))) eqn:Hk; [|reflexivity].
+      apply andb_true_iff in Hk as [H0 H1]. apply Z.leb_le in H0. apply Z.ltb_lt in H1.
+      replace (idx_ok (map np_nrows (kt_factors self)) k) with true
+        by (symmetry; unfold idx_ok, zlen in *; rewrite map_length; apply andb_true_iff; split; [apply Z.leb_le|apply Z.ltb_lt]; lia).
+      rewrite (znth_map0 np_nrows [] (kt_factors self) k eq_refl). reflexivity. }
+  destruct (H_needed self modes 0) as [needed|]; cbn [bind]; [|reflexivity].
+  destruct (zlen data <? needed); [reflexivity|].
   rewrite (np_for_update_loop data).
   - destruct (H_update_loop data modes (self, 0)) as [[s l]|]; reflexivity.
   - intros k [s loc]. unfold H_update_step, H_chunk, kt_ncomponents, kt_ndims, kt_shape. cbn [fst snd].
